@@ -16,6 +16,7 @@
 import Cachelito.Props.C04
 import Cachelito.Props.C06
 import Cachelito.Props.C05
+import Cachelito.Props.C07
 import Cachelito.Props.T17m
 import Cachelito.Props.T18
 import Cachelito.Props.T19
@@ -157,6 +158,91 @@ theorem global_oversize_not_cached (A : F64 F) (c : GlobalCache K V F) (size : V
   rw [(T14.insert_with_memory_model A c size now 0 0 rs k v ok).1]
   exact C05.oversize_not_cached (T08.cfgOf c) (T02.srcTlru A c.frequency_weight) size rs ⟨c.map, c.order, now, 0, 0⟩ k v M
     (by simpa [T08.cfgOf] using hM) hi hov
+
+/-! ## C07 on the translated `insert` (FIFO / LRU evict what was stored / used longest ago) -/
+
+/-- **sync global**: on a consistent FIFO or LRU cache whose queue (after the key's re-queue) is sorted by a stamp `f` — store
+    time for FIFO, last use for LRU —, every key the plain `insert` evicts has a strictly smaller stamp than every key that
+    survives it -/
+theorem global_insert_victim_oldest (A : F64 F) (c : GlobalCache K V F) (now r : Nat) (k : K) (v : V)
+    (ok : T08.ScoresOK A c) (hp : c.policy = .fifo ∨ c.policy = .lru)
+    (hi : Inv (⟨c.map, c.order, now, 0, 0⟩ : State K V)) (f : K → Nat)
+    (hs : (erasePush k c.order).Pairwise (fun a b => f a < f b)) :
+    ∀ x y, x ∈ keys (put k ⟨v, now, 0⟩ c.map) → x ∉ keys (Global.insert A ⟨fun b => now - b, now⟩ r c k v).map →
+      y ∈ keys (Global.insert A ⟨fun b => now - b, now⟩ r c k v).map → f x < f y := by
+  rw [T08.insert_eq A c now r 0 0 k v ok]
+  have h := C07.limit_victim_is_oldest (T08.cfgOf c) (by simpa [T08.cfgOf] using hp) (T02.srcTlru A c.frequency_weight) now r
+    (put k ⟨v, now, 0⟩ c.map) (erasePush k c.order) (InvMQ.put_erasePush hi k ⟨v, now, 0⟩) f hs
+  simpa [Cachelito.insert, T08.cfgOf, stamp] using h
+
+/-! ## C01 / C03 / C10 / C11 on the generated wrappers -/
+
+/-- C01 / C03 (configuration 0000, sync global): a hit is served — the cached value is returned, the body's value is not
+    used, nothing is stored -/
+theorem wrapGlobal_0000_hit (A : F64 F) (clock : Clock) (size : V → Nat) (fuel : Nat) (rs : List Nat)
+    (io ci : K → V → Bool) (c : GlobalCache K V F) (key : K) (body cached : V)
+    (hhit : (Global.get clock c key).1 = some cached) :
+    Wrap.wrapGlobal_0000 A clock size fuel rs io ci c key body = (cached, (Global.get clock c key).2) := by
+  rw [T17.wrapGlobal_0000_eq]
+  exact T17.wrapGen_hit _ false false io ci c key body cached hhit (Or.inl rfl)
+
+/-- C10 (configuration 0001, sync global): a result `cache_if` rejects is returned and NOT stored — the cache is as the lookup
+    left it, so the next call for the key misses again -/
+theorem wrapGlobal_0001_rejected (A : F64 F) (clock : Clock) (size : V → Nat) (fuel : Nat) (rs : List Nat)
+    (io ci : K → V → Bool) (c : GlobalCache K V F) (key : K) (body : V)
+    (hmiss : (Global.get clock c key).1 = none) (hrej : ci key body = false) :
+    Wrap.wrapGlobal_0001 A clock size fuel rs io ci c key body = (body, (Global.get clock c key).2) := by
+  rw [T17.wrapGlobal_0001_eq]
+  unfold T17.wrapGen
+  simp [hmiss, hrej]
+
+/-- C10: … and an accepted one is handed to the engine's `insert` -/
+theorem wrapGlobal_0001_accepted (A : F64 F) (clock : Clock) (size : V → Nat) (fuel : Nat) (rs : List Nat)
+    (io ci : K → V → Bool) (c : GlobalCache K V F) (key : K) (body : V)
+    (hmiss : (Global.get clock c key).1 = none) (hacc : ci key body = true) :
+    Wrap.wrapGlobal_0001 A clock size fuel rs io ci c key body =
+      (body, Global.insert A clock (headRand rs) (Global.get clock c key).2 key body) := by
+  rw [T17.wrapGlobal_0001_eq]
+  unfold T17.wrapGen
+  simp [hmiss, hacc]
+
+/-- C10, async (configuration 0001): the same -/
+theorem wrapAsync_0001_rejected (A : F64 F) (clock : Clock) (size : V → Nat) (fuel : Nat) (rs : List Nat)
+    (io ci : K → V → Bool) (c : AsyncCache K V F) (key : K) (body : V)
+    (hmiss : (Async.get clock c key).1 = none) (hrej : ci key body = false) :
+    WrapAsync.wrapAsync_0001 A clock size fuel rs io ci c key body = (body, (Async.get clock c key).2) := by
+  rw [T18.wrapAsync_0001_eq]
+  unfold T17.wrapGen
+  simp [hmiss, hrej]
+
+/-- C11 (configuration 0010, sync global): a cached entry `invalidate_on` calls stale is NOT served: the body's value is
+    returned and stored in its place -/
+theorem wrapGlobal_0010_stale (A : F64 F) (clock : Clock) (size : V → Nat) (fuel : Nat) (rs : List Nat)
+    (io ci : K → V → Bool) (c : GlobalCache K V F) (key : K) (body cached : V)
+    (hhit : (Global.get clock c key).1 = some cached) (hstale : io key cached = true) :
+    Wrap.wrapGlobal_0010 A clock size fuel rs io ci c key body =
+      (body, Global.insert A clock (headRand rs) (Global.get clock c key).2 key body) := by
+  rw [T17.wrapGlobal_0010_eq]
+  unfold T17.wrapGen
+  simp [hhit, hstale]
+
+/-- C11: … and one it calls valid is served without using the body's value -/
+theorem wrapGlobal_0010_valid (A : F64 F) (clock : Clock) (size : V → Nat) (fuel : Nat) (rs : List Nat)
+    (io ci : K → V → Bool) (c : GlobalCache K V F) (key : K) (body cached : V)
+    (hhit : (Global.get clock c key).1 = some cached) (hvalid : io key cached = false) :
+    Wrap.wrapGlobal_0010 A clock size fuel rs io ci c key body = (cached, (Global.get clock c key).2) := by
+  rw [T17.wrapGlobal_0010_eq]
+  exact T17.wrapGen_hit _ true false io ci c key body cached hhit (Or.inr hvalid)
+
+/-- C11, async (configuration 0010): a stale entry is recomputed and REPLACED (the defect F1 kept the old value) -/
+theorem wrapAsync_0010_stale (A : F64 F) (clock : Clock) (size : V → Nat) (fuel : Nat) (rs : List Nat)
+    (io ci : K → V → Bool) (c : AsyncCache K V F) (key : K) (body cached : V)
+    (hhit : (Async.get clock c key).1 = some cached) (hstale : io key cached = true) :
+    WrapAsync.wrapAsync_0010 A clock size fuel rs io ci c key body =
+      (body, Async.insert A clock (headRand rs) (Async.get clock c key).2 key body) := by
+  rw [T18.wrapAsync_0010_eq]
+  unfold T17.wrapGen
+  simp [hhit, hstale]
 
 /-! ## C09 on the generated wrappers -/
 
